@@ -55,3 +55,24 @@ seq_spec("C12", Q.sweep_C12, 3000, 60000, "seeded creation/deletion/restart hist
 seq_spec("C13", Q.sweep_C13, 2500, 50000, "seeded histories; non-trivial when some webentity has a child webentity; distinct = distinct event digests")
 seq_spec("C19", Q.sweep_C19, 2500, 50000, "seeded histories biased to long stems; non-trivial when >= 5 nodes or a tail block exists; distinct = distinct event digests", after_op=Q.after_op_C19)
 seq_spec("C20", lambda ctx: Q.sweep_C20(ctx, known), 1500, 30000, "seeded link histories; non-trivial when >= 2 distinct links and a webentity exist; distinct = distinct event digests")
+
+# ---------------------------------------------------------------------------
+from . import pagination as P
+from .runner import Spec as _Spec
+
+register(
+    _Spec(
+        "C09",
+        P.gen_C09,
+        P.run_C09,
+        2000,
+        40000,
+        "exploration",
+        "seeded histories, then (a) quiescent token chains for every webentity x page sizes x crawled-only and (b) a pager whose successive calls are separated by seeded page-inserting requests; non-trivial when a chain needs >= 3 calls or writes happened between calls; distinct = distinct event digests",
+        "sequential-history + interleaved pager",
+        components_stub=STUBS,
+        fault_kinds=["op_reopen", "ops_between_calls"],
+        assumptions=ASSUME,
+    )
+)
+seq_spec("C10", P.sweep_C10, 2000, 40000, "seeded link histories, then token chains for every webentity x source-page counts x 3 switch settings compared with the unpaginated answer of the same index; non-trivial when a chain needs >= 3 calls; distinct = distinct event digests")
